@@ -47,6 +47,8 @@ FSTRING_PROGRAMS = [
     ("dict-union-free", "d = {**{'a': 1}, 'b': 2}\nprint(sorted(d.items()))\n"),
     ("starred-index", "t = (1, 2)\nd = {(1, 2): 'x'}\nprint(d[t[0], t[1]])\n"),
     ("return-starred", "def f(a):\n    return (1, *a)\nprint(f([2, 3]))\n"),
+    ("super-in-loop", "class B:\n    def m(self):\n        return 1\nclass C(B):\n    def m(self):\n        t = 0\n        for i in range(2):\n            t += super().m()\n        while t < 5:\n            t += super().m()\n        return t\nprint(C().m())\n"),
+    ("super-outside-loop", "class B:\n    def m(self):\n        return 1\nclass C(B):\n    def m(self):\n        s = super()\n        t = 0\n        for i in range(2):\n            t += s.m() + super(C, self).m()\n        return t\nprint(C().m())\n"),
     ("walrus-in-displays", "print({(a := 5), 1} == {1, 5}, [(b := 2), b], ((c := 3), c), {(d := 4): d}, a)\n"),
     ("walrus-in-call-and-subscript", "l = [1, 2, 3]\nprint(l[(i := 1)], max((j := 2), 1), i, j, f'{(k := 7)}', k)\n"),
     ("starred-index-load", "t = (1, 2)\nd = {(1, 2, 3): 'x', (0, 1, 2): 'y'}\nprint(d[(*t, 3)], d[(0, *t)])\n"),
@@ -80,6 +82,18 @@ def known_shape(name, src, key, rt, host, text=None):
                 continue
             if _literal_in_field(tree, kinds, new_host):
                 return "KF-D47"
+    # KF-D65: zero-argument super() inside a loop body of a method (a comprehension frame on runtimes <= 3.11)
+    if rt in ("3.8", "3.9", "3.10", "3.11"):
+        try:
+            tree = ast.parse(src)
+        except (SyntaxError, ValueError, RecursionError):
+            tree = None
+        if tree is not None:
+            for loop in ast.walk(tree):
+                if isinstance(loop, (ast.For, ast.While)):
+                    for n in ast.walk(loop):
+                        if isinstance(n, ast.Call) and isinstance(n.func, ast.Name) and n.func.id == "super" and not n.args and not n.keywords:
+                            return "KF-D65"
     # KF-D62: the stdlib unparser of a >= 3.11 host writes a tuple index without parentheses, also when it holds a
     # starred item (`d[*t, 3]`, PEP 646 syntax): a SyntaxError on 3.8 - 3.10
     if rt in ("3.8", "3.9", "3.10") and host in ("3.11", "3.12", "3.13") and key.startswith("ast.unparse|"):
